@@ -29,6 +29,7 @@ noncomputable instance instFloatLikeReal : FloatLike ℝ where
   round := fun x => ((_root_.round x : ℤ) : ℝ)
   fract := fun x => Int.fract x
   isNormal := fun x => decide ((1:ℝ) / 2 ^ 1022 ≤ |x|)
+  isFinite := fun _ => true
   sqrt := Real.sqrt
   fmax := max
   toUsize := fun x => ⌊x⌋₊
@@ -88,6 +89,7 @@ noncomputable instance instFloatSpecReal : FloatSpec ℝ where
     · rintro ⟨n, hn⟩; exact ⟨le_refl _, by norm_num, n, by rw [hn]; ring⟩⟩
   fmax_spec := fun _ _ => ⟨trivial, rfl⟩
   isNormal_spec := fun {a} _ => by show decide ((1:ℝ) / 2 ^ 1022 ≤ |a|) = true ↔ _; simp
+  isFinite_spec := fun _ => rfl
   flt_spec := fun {a b} _ _ => by show decide (a < b) = true ↔ _; simp
   fle_spec := fun {a b} _ _ => by show decide (a ≤ b) = true ↔ _; simp
   feq_spec := fun {a b} _ _ => by show decide (a = b) = true ↔ _; simp
